@@ -70,6 +70,14 @@ CHECKS = {
          "each return is re-checked to be a fixed point and, for false loops, equal to the reference; divergence and update_once must raise; acyclic-only passes must reject.",
          "Trusted: vt/irref.py for false loops; a 20 s alarm as hang detector. Loops through nets/children are not generated.",
          "DESIGN.md 6.C11", "E1 E2"),
+ "C14": ("exploration",
+         "bounded exhaustive enumeration of hierarchies (member menus per level) with on-demand field/slice creation; every object's name evaluated back on the real elaborated design",
+         "Every hierarchy with <= 3 top members and <= 2 mid-level members drawn from a 15-entry menu (components, lists and 2-d lists of components, interfaces and lists of them, "
+         "method ports, Bits/struct/struct-with-list/nested-struct/list-of-struct signals, lists of signals) is elaborated twice; update blocks, connections and post-elaboration "
+         "accesses create field, list-field, slice, slice-of-slice and bit signals; for every object eval(repr(o)) is o, names are unique, parent/host/level/top-level-signal agree "
+         "with the name, and both elaborations give the same name sets.",
+         "Trusted: the 10-line name splitter. Depth 2 only; set_param trees are not exercised.",
+         "DESIGN.md 6.C14", "E1"),
 }
 
 NOT_YET = {}
